@@ -656,40 +656,6 @@ pub fn detect_fixes() -> (u32, Vec<String>) {
 
 pub fn run(o: &Opts) -> Report {
     let mut rep = Report::new("C13");
-    if std::env::var("ZXH_PROFILE").is_ok() {
-        let mut r = Rng::new(5);
-        let s = random_state(&mut r, true, true);
-        let t = std::time::Instant::now();
-        let mut e = build(&s);
-        eprintln!("build128 {:?}", t.elapsed());
-        let t = std::time::Instant::now();
-        let _ = observe(&mut e, true);
-        eprintln!("observe128 {:?}", t.elapsed());
-        let t = std::time::Instant::now();
-        let b = save_sna(&mut e).unwrap();
-        eprintln!("save128 {:?}", t.elapsed());
-        let t = std::time::Instant::now();
-        let _ = segments(&b, &known_banks(&s), &sna_boundaries(b.len()));
-        eprintln!("segments {:?}", t.elapsed());
-        let mut m = Model::spawn(&o.model, "C13");
-        let t = std::time::Instant::now();
-        m.ask(&format!("mach 0 {}", s.line()));
-        eprintln!("drv mach {:?}", t.elapsed());
-        let t = std::time::Instant::now();
-        m.ask("obs 0");
-        eprintln!("drv obs {:?}", t.elapsed());
-        for _ in 0..3 {
-        let t = std::time::Instant::now();
-        m.ask("save 0");
-        eprintln!("drv save {:?}", t.elapsed());
-        }
-        let t = std::time::Instant::now();
-        m.ask("load 0 1");
-        eprintln!("drv load {:?}", t.elapsed());
-        let t = std::time::Instant::now();
-        m.ask("rt 0 1");
-        eprintln!("drv rt {:?}", t.elapsed());
-    }
     rep.rule = "random machine states (registers with boundary bias, every 7FFD value incl. lock, SP at the ROM/RAM \
 and address-space edges, RAM banks = seeded 16 KiB patterns with a small program at PC, sometimes two equal or untouched \
 banks) on both machines; each is saved through Emulator::save_snapshot (file compared byte-exact with the model's snaSave \
@@ -753,9 +719,7 @@ steps. distinct = (machine, bank at 0xC000, source lock, receiver halt/skip/pref
         if k < 2 {
             rep.sample(J::s(case.text()));
         }
-        let t0 = std::time::Instant::now();
         let fs = check_case(&mut cx, case, Some(&mut rep));
-        if std::env::var("ZXH_PROFILE").is_ok() { eprintln!("case {} {:?} findings={}", k, t0.elapsed(), fs.len()); }
         for f in &fs {
             rep.count("disagreements", format!("{}/{}/{:?}", f.phase, f.group, f.kind));
         }
@@ -766,9 +730,7 @@ steps. distinct = (machine, bank at 0xC000, source lock, receiver halt/skip/pref
                 continue;
             }
             rep.count("shrunk", tag);
-            let t1 = std::time::Instant::now();
             record(&mut cx, &mut rep, case, f);
-            if std::env::var("ZXH_PROFILE").is_ok() { eprintln!("  shrink {:?}", t1.elapsed()); }
         }
     }
     rep.extra.push(("cases".into(), J::I(cases.len() as i64)));
